@@ -286,10 +286,14 @@ func judgeMessages(c *Case, w *world, st *stats) []violation {
 			switch {
 			case seen[s.Validator] > 1:
 				add("duplicate-message", "slot %d: %d messages of validator %d", n, seen[s.Validator], s.Validator)
-			case seen[s.Validator] == 0 && msgSuppressedBy != "":
+			case seen[s.Validator] == 0 && msgSuppressedBy != "" && !c.headFault(n):
 				msgSuppressed = true
 				add("healthy-messages-suppressed:"+msgSuppressedBy,
 					"slot %d: no message of validator %d (account present, signature available); Message returned %q; members of the duty: %s", n, s.Validator, messageErr[n], describeFaulty(c, seats))
+			case seen[s.Validator] == 0 && c.headFault(n):
+				// the node gave no head root in this slot: only this slot may go without messages
+				msgSuppressed = true
+				st.label("slot-with-head-root-fault-not-judged")
 			case seen[s.Validator] == 0:
 				add("message-missing", "slot %d: no message of validator %d", n, s.Validator)
 				msgSuppressed = true
@@ -458,6 +462,14 @@ func drawSeats(t *rapid.T, validators []uint64, size uint64, maxPos int, pIn int
 	return seats
 }
 
+// drawSubFault lets the subscription submission of a period fail (auxiliary call around the scheduling).
+func drawSubFault(t *rapid.T, c *Case, period uint64) {
+	k := rapid.SampledFrom([]string{"", "", "", "", "plain", "api-400", "api-503", "context"}).Draw(t, "subscriptionFault")
+	if k != "" {
+		c.SubFaults = append(c.SubFaults, SubFault{Period: period, Kind: k})
+	}
+}
+
 func genWindowCase(t *rapid.T) Case {
 	c := Case{Kind: "window"}
 	ch := &c.Chain
@@ -534,6 +546,7 @@ func genWindowCase(t *rapid.T) Case {
 	lastPeriod := c.EndSlot/spe/epp + 1
 	for p := firstPeriod; p <= lastPeriod; p++ {
 		c.Committees = append(c.Committees, Committee{Period: p, Seats: drawSeats(t, validators, ch.CommitteeSize, 2, 85, map[uint64]bool{})})
+		drawSubFault(t, &c, p)
 	}
 	return c
 }
@@ -587,6 +600,11 @@ func genMessagesCase(t *rapid.T) Case {
 	c.EndSlot = c.StartSlot + span
 	c.Committees = append(c.Committees, Committee{Period: pb, Seats: drawSeats(t, validators, ch.CommitteeSize, 3, 100, map[uint64]bool{})})
 	c.Committees = append(c.Committees, Committee{Period: pb + 1, Seats: drawSeats(t, validators, ch.CommitteeSize, 3, 50, map[uint64]bool{})})
+	drawSubFault(t, &c, pb)
+	drawSubFault(t, &c, pb+1)
+	if rapid.IntRange(0, 4).Draw(t, "headFault") == 4 {
+		c.HeadFaultSlots = []uint64{rapid.Uint64Range(c.StartSlot+1, c.EndSlot).Draw(t, "headFaultSlot")}
+	}
 	return c
 }
 
@@ -660,6 +678,15 @@ func check(t ev.TB, c *Case) {
 	}
 	for l := range st.labels {
 		labels = append(labels, "m:"+l)
+	}
+	if w.subFailures > 0 {
+		labels = append(labels, "fault:subscription-submission-failed")
+		for _, f := range c.SubFaults {
+			labels = appendOnce(labels, "fault:subscription-"+f.Kind)
+		}
+	}
+	if w.headFails > 0 {
+		labels = append(labels, "fault:head-root-failed-in-one-slot")
 	}
 	sort.Strings(labels)
 	ev.Case(nontrivial, ev.Hash(c), labels...)
